@@ -39,9 +39,12 @@ Definition bound_ok (c : cmd) (clk : Z) : bool :=
    exactly at the end does not refuse: a run paused there with events at the end
    time still pending can be resumed and then ends the replication) and, for
    bounded runs, the validity of the bound *)
-Definition table (c : cmd) (r : runst) (p : replst) (past_end bok : bool) : cres :=
+(* [craises]: the model's construct_model raises (a property of the model
+   program, not of the simulator): an initialize that is not refused is then
+   aborted by that exception - the third outcome, neither accepted nor refused *)
+Definition table (c : cmd) (r : runst) (p : replst) (past_end bok craises : bool) : cres :=
   match c with
-  | CInit _ => if rs_running r then ResRefused else ResOk
+  | CInit _ => if rs_running r then ResRefused else if craises then ResRaised else ResOk
   | CInitBad => ResRefused
   | CStart | CStep | CRunUpTo _ | CRunUpToIncl _ =>
       if negb (rs_running r) && rs_initialized r && ps_runnable p && negb past_end && bok
@@ -53,8 +56,13 @@ Definition table (c : cmd) (r : runst) (p : replst) (past_end bok : bool) : cres
 
 Definition past_end (s : sim) : bool := end_time s <? clock s.
 
-Definition table_of (s : sim) (c : cmd) : cres :=
-  table c (rs s) (ps s) (past_end s) (bound_ok c (clock s)).
+Definition is_fail (a : action) : bool := match a with AFail => true | _ => false end.
+
+(* construct_model (handler 0 of the program) raises *)
+Definition construct_raises (p : program) : bool := existsb is_fail (body p 0).
+
+Definition table_of (p : program) (s : sim) (c : cmd) : cres :=
+  table c (rs s) (ps s) (past_end s) (bound_ok c (clock s)) (construct_raises p).
 
 (* ------------------------------------------------------------------ *)
 (* 2. The monitor automaton of the notification stream                  *)
@@ -141,6 +149,7 @@ Definition mon_accepts (w : Z) (l : list ntf) : bool :=
 Definition mon_reset (c : cmd) (res : cres) (m : mon) : mon :=
   match c, res with
   | CInit r, ResOk => mon_fresh (r_warm r)
+  | CInit _, ResRaised => mon_dead        (* the cleanup inside initialize dropped the listeners; not initialized *)
   | CCleanup, _ => mon_dead
   | _, _ => m
   end.
@@ -154,6 +163,8 @@ Definition mon_reset (c : cmd) (res : cres) (m : mon) : mon :=
 Definition qstate_ok (r : runst) (p : replst) (w : wstate) : bool :=
   match r, p, w with
   | RNotInit, PNotInit, WNone => true
+  | RNotInit, PNotInit, WAlive => true       (* after an initialize aborted by construct_model: the new run
+                                                thread waits until the next initialize / cleanup *)
   | RInit, PInit, WAlive => true
   | RStopped, PStarted, WAlive => true
   | REnded, PEnded, WFinal => true
@@ -161,6 +172,10 @@ Definition qstate_ok (r : runst) (p : replst) (w : wstate) : bool :=
   end.
 
 Definition qinv (s : sim) : bool := qstate_ok (rs s) (ps s) (worker s).
+
+(* NOT_INITIALIZED, yet a run thread is held: the last initialize was aborted *)
+Definition holds_aborted_thread (s : sim) : bool :=
+  match rs s, worker s with RNotInit, WAlive => true | _, _ => false end.
 
 (* monitor state and simulator state agree (at quiescence) *)
 Definition mon_agrees (m : mon) (r : runst) (p : replst) : bool :=
@@ -227,7 +242,7 @@ Definition replst_eqb (a b : replst) : bool :=
   end.
 
 Definition cres_eqb (a b : cres) : bool :=
-  match a, b with ResOk, ResOk | ResRefused, ResRefused => true | _, _ => false end.
+  match a, b with ResOk, ResOk | ResRefused, ResRefused | ResRaised, ResRaised => true | _, _ => false end.
 
 Definition ntf_eqb (a b : ntf) : bool :=
   match a, b with
@@ -258,29 +273,47 @@ Definition lsnap_eqb (a b : lsnap) : bool :=
   && (l_clock a =? l_clock b) && Nat.eqb (l_npend a) (l_npend b) && Nat.eqb (l_alive a) (l_alive b)
   && list_eqb ntf_eqb (l_ntfs a) (l_ntfs b).
 
-Fixpoint lrun (fuel : nat) (p : program) (s : sim) (cs : list cmd) : sim * list lsnap :=
+(* In the harness construct_model can be made to raise on chosen initialize
+   calls only: the k-th CInit of the list (k in [fails]) runs under the program
+   whose construct body ends in a failure, every other command under p. *)
+Definition failing (p : program) : program :=
+  match p with
+  | [] => [[AFail]]
+  | b :: r => (b ++ [AFail]) :: r
+  end.
+
+Definition is_init (c : cmd) : bool := match c with CInit _ => true | _ => false end.
+
+Fixpoint lrun (fuel : nat) (p : program) (fails : list nat) (k : nat) (s : sim) (cs : list cmd)
+  : sim * list lsnap :=
   match cs with
   | [] => (s, [])
   | c :: r =>
-      let '(s1, res) := do_cmd fuel p s c in
-      let '(s2, sn) := lrun fuel p s1 r in
+      let k1 := if is_init c then S k else k in
+      let pc := if is_init c && existsb (Nat.eqb k1) fails then failing p else p in
+      let '(s1, res) := do_cmd fuel pc s c in
+      let '(s2, sn) := lrun fuel p fails k1 s1 r in
       (s2, mkLsnap res (rs s1) (ps s1) (clock s1) (length (pend s1)) (alive_count s1) (new_ntfs s s1) :: sn)
   end.
 
 (* the table and the monitor evaluated on the implementation's own snapshots:
    does the observed outcome of each command equal the table entry for the
    observed state before it, and is the observed stream accepted *)
-Fixpoint observed_ok (cs : list cmd) (obs : list lsnap) (r : runst) (p : replst) (clk endt : Z)
-         (m : mon) : bool :=
+Fixpoint observed_ok (craises : bool) (fails : list nat) (k : nat) (cs : list cmd) (obs : list lsnap)
+         (r : runst) (p : replst) (clk endt : Z) (m : mon) : bool :=
   match cs, obs with
   | [], [] => true
   | c :: cr, o :: orest =>
-      cres_eqb (l_res o) (table c r p (endt <? clk) (bound_ok c clk))
+      let k1 := if is_init c then S k else k in
+      cres_eqb (l_res o) (table c r p (endt <? clk) (bound_ok c clk)
+                                (craises || (is_init c && existsb (Nat.eqb k1) fails)))
       && match mon_feed (mon_reset c (l_res o) m) (l_ntfs o) with
          | Some m1 =>
              mon_quiet m1 && mon_agrees m1 (l_rs o) (l_ps o)
-             && observed_ok cr orest (l_rs o) (l_ps o) (l_clock o)
-                  (match c, l_res o with CInit rp, ResOk => r_end rp | _, _ => endt end) m1
+             && observed_ok craises fails k1 cr orest (l_rs o) (l_ps o) (l_clock o)
+                  (match c, l_res o with
+                   | CInit rp, ResOk | CInit rp, ResRaised => r_end rp
+                   | _, _ => endt end) m1
          | None => false
          end
   | _, _ => false
@@ -290,6 +323,7 @@ Record lcase := mkLcase {
   lc_strat : strategy;
   lc_prog : program;
   lc_cmds : list cmd;
+  lc_fails : list nat;           (* the initialize calls (1-based) whose construct_model raises *)
   lc_obs : list lsnap            (* the implementation's observations *)
 }.
 
@@ -300,10 +334,11 @@ Definition LFUEL : nat := 4000.
    does not cover the case (flag); 3 = they agree but the table / monitor
    rejects the observed history *)
 Definition lcase_code (c : lcase) : nat :=
-  let '(s, sn) := lrun LFUEL (lc_prog c) (init_sim (lc_strat c)) (lc_cmds c) in
+  let '(s, sn) := lrun LFUEL (lc_prog c) (lc_fails c) 0 (init_sim (lc_strat c)) (lc_cmds c) in
   if flag s then 2%nat
   else if negb (list_eqb lsnap_eqb sn (lc_obs c)) then 1%nat
-  else if observed_ok (lc_cmds c) (lc_obs c) RNotInit PNotInit 0 0 mon_dead then 0%nat
+  else if observed_ok (construct_raises (lc_prog c)) (lc_fails c) 0 (lc_cmds c) (lc_obs c)
+                      RNotInit PNotInit 0 0 mon_dead then 0%nat
   else 3%nat.
 
 Fixpoint lcodes_from (i : nat) (want : nat) (cs : list lcase) : list nat :=
@@ -314,4 +349,4 @@ Fixpoint lcodes_from (i : nat) (want : nat) (cs : list lcase) : list nat :=
   end.
 
 Definition lcase_view (c : lcase) : list lsnap :=
-  snd (lrun LFUEL (lc_prog c) (init_sim (lc_strat c)) (lc_cmds c)).
+  snd (lrun LFUEL (lc_prog c) (lc_fails c) 0 (init_sim (lc_strat c)) (lc_cmds c)).
